@@ -138,3 +138,28 @@ Proof.
   eexists; split; [reflexivity|]. split; [apply minrun_length | apply minrun_spec].
 Qed.
 Print Assumptions translated_source_keeps_exactly_the_long_runs.
+
+(* the argument checks, read off the translated source: a list is refused, the empty array is returned
+   before the count is looked at, a negative count is refused for every non-empty array *)
+Theorem translated_source_argument_checks : forall l n,
+  check_min_burst_cycles_gen PyList l n = Err EValue /\
+  check_min_burst_cycles_gen NdArray [] n = Ok [] /\
+  (l <> [] -> (n < 0)%Z -> check_min_burst_cycles_gen NdArray l n = Err EValue).
+Proof.
+  intros l n. rewrite !translated_check_min_burst_cycles_is_the_run_filter.
+  unfold check_min_burst_cycles, check_min_with. repeat split.
+  intros Hl Hn. destruct l as [|x t]; [contradiction|].
+  replace (n <? 0)%Z with true by (symmetry; apply Z.ltb_lt; exact Hn). reflexivity.
+Qed.
+Print Assumptions translated_source_argument_checks.
+
+(* no cycle is ever switched on, whatever the count *)
+Theorem translated_source_never_adds_a_label : forall l n r i,
+  check_min_burst_cycles_gen NdArray l n = Ok r -> nth i r false = true -> nth i l false = true.
+Proof.
+  intros l n r i. rewrite translated_check_min_burst_cycles_is_the_run_filter.
+  unfold check_min_burst_cycles, check_min_with. destruct l as [|x t].
+  - intros H; injection H as <-. destruct i; discriminate.
+  - destruct (n <? 0)%Z; [discriminate|]. intros H; injection H as <-. apply minrun_le.
+Qed.
+Print Assumptions translated_source_never_adds_a_label.
